@@ -418,12 +418,60 @@ func random(c *mon.Ctx, r *gen.Rand) {
 			if len(t.all) == 0 {
 				continue
 			}
-			t.close(t.all[r.Intn(len(t.all))])
+			d := t.all[r.Intn(len(t.all))]
+			if r.Chance(3) {
+				// an equal descriptor that is a different object (what a caller holding a re-parsed signal has)
+				i := t.inf[d]
+				cl := mk(i.typ, i.event, i.pts, i.hasPTS, d.SegmentNumber(), d.SegmentsExpected())
+				t.inf[cl] = info{len(t.all), i.typ, i.event, i.pts, i.hasPTS}
+				t.all = append(t.all, cl)
+				d = cl
+			}
+			t.close(d)
 		default:
 			t.probe()
 		}
 	}
 	t.finish("random")
+}
+
+// interleaved drives two trackers in turns with a shared pool of descriptors: nothing may carry over
+// from one tracker to the other.
+func interleaved(c *mon.Ctx, r *gen.Rand) {
+	ts := []*tracker{newTracker(c), newTracker(c)}
+	n := 4 + r.Intn(30)
+	pts := uint64(1000)
+	for i := 0; i < n && !ts[0].dead && !ts[1].dead; i++ {
+		t := ts[r.Intn(2)]
+		switch op := r.Intn(10); {
+		case op < 6:
+			if r.Chance(2) || ts[0].perPTS[pts] >= 5 || ts[1].perPTS[pts] >= 5 {
+				pts += 100
+			}
+			typ := types[r.Intn(len(types))]
+			d := mk(typ, uint32(1+r.Intn(2)), pts, !r.Chance(12), 1, 1)
+			for _, x := range ts {
+				x.register(d, typ, d.EventID(), pts, d.SCTE35().HasPTS())
+			}
+			t.process(d)
+			if r.Chance(3) { // the other tracker sees the same descriptor for the first time
+				o := ts[0]
+				if t == ts[0] {
+					o = ts[1]
+				}
+				o.process(d)
+			}
+		case op < 8:
+			if len(t.all) > 0 {
+				t.close(t.all[r.Intn(len(t.all))])
+			}
+		default:
+			t.probe()
+		}
+	}
+	c.Count("interleaved.histories")
+	ts[0].finish("interleaved")
+	ts[1].finish("interleaved")
 }
 
 const alphabet = 15
@@ -506,4 +554,5 @@ func run(c *mon.Ctx) {
 		c.StreamSeedless(fmt.Sprintf("exhaustive-depth-%d", depth), total, func(i int, r *gen.Rand) { exhaustive(c, i, dd) })
 	}
 	c.Stream("random", c.N(40000, 30000000), func(i int, r *gen.Rand) { random(c, r) })
+	c.Stream("interleaved", c.N(10000, 5000000), func(i int, r *gen.Rand) { interleaved(c, r) })
 }
